@@ -60,6 +60,9 @@ def worker(case):
             L += ["match 2 3", "watch target WATCH", "copy 3 1", "watchstat", "watch - -", "flags 1"]
         for i in range(len(srcs)):
             if case["mode"] == "copy":
+                if i and case.get("setfd"):
+                    # the application re-opens the target and hands the context the new descriptor (position 0) between two copies
+                    L += ["fopen %d tgt.zck rw target" % (8 + i), "setfd 1 %d" % (8 + i)]
                 L += ["watch target WATCH", "copy %d 1" % (2 + i), "watchstat", "watch - -", "flags 1"]
             elif case["mode"] == "match":
                 L += ["match %d 1" % (2 + i), "flags 1"]
@@ -290,7 +293,38 @@ class C08(core.Check):
                 kinds.append(k)
             for mode in (["copy", "match"] if i % 3 == 0 else [r.choice(["copy", "copy", "match"])]):
                 out.append({"name": "t%d-c%d-u%d-h%d" % (i, comp, uncomp, cht), "T": core.b64(T), "Bt": core.b64(Bt), "srcs": [core.b64(s) for s in srcs], "skinds": kinds,
-                            "mode": mode, "reset": r.random() < 0.5, "zh": ctx["zh"]})
+                            "mode": mode, "reset": r.random() < 0.5, "zh": ctx["zh"], "setfd": len(srcs) > 1 and r.random() < 0.4})
+            if i % 8 == 1 and nch >= 5:
+                # the target's chunks come from two sources in file order (first part, second part), the descriptor re-opened in between:
+                # the second copy continues exactly where the first one stopped writing
+                m = r.randrange(2, nch - 1)
+                parts = [zckref.make_file(pieces[:m], comp_type=comp, dict_bytes=db, chunk_hash_type=cht, uncomp=uncomp),
+                         zckref.make_file(pieces[m:], comp_type=comp, dict_bytes=db, chunk_hash_type=cht, uncomp=uncomp)]
+                Tz = bytearray(Bt)
+                for c in pT.chunks[1:]:
+                    a = pT.header_len + c["start"]
+                    Tz[a:a + c["comp_len"]] = bytes(c["comp_len"])
+                out.append({"name": "t%d-two-parts-setfd" % i, "T": core.b64(bytes(Tz)), "Bt": core.b64(Bt), "srcs": [core.b64(x) for x in parts], "skinds": ["first-part", "second-part"],
+                            "mode": "copy", "reset": True, "zh": ctx["zh"], "setfd": True})
+            if i % 8 == 2:
+                # index-only matching across compression types (both files carry uncompressed checksums): a target entry whose UNCOMPRESSED
+                # checksum equals a source chunk's STORED checksum (same length) must not be paired with it
+                sp = [gen.content("text", r.randrange(20, 300), r.random()) for _ in range(4)]
+                S = zckref.make_file(sp, comp_type=2, chunk_hash_type=1, uncomp=True)
+                pS = zckref.parse(S)
+                Tm = zckref.make_file([r.randbytes(c["len"]) for c in pS.chunks[1:]], comp_type=0, chunk_hash_type=1, uncomp=True)
+                pTm = zckref.parse(Tm)
+                ch = [(c["digest"], c["udigest"], c["comp_len"], c["len"]) for c in pTm.chunks]
+                for k in range(1, len(ch)):
+                    ch[k] = (ch[k][0], pS.chunks[k]["digest"], ch[k][2], ch[k][3])
+                Tm = basefiles.rebuild(pTm, Tm, chunks=ch, data_digest=pTm.data_digest)
+                pTm = zckref.parse(Tm)
+                Tz = bytearray(Tm)
+                for c in pTm.chunks[1:]:
+                    a = pTm.header_len + c["start"]
+                    Tz[a:a + c["comp_len"]] = bytes(c["comp_len"])      # nothing there yet: every chunk is a candidate for matching
+                out.append({"name": "t%d-stored-digest-as-uncompressed" % i, "T": core.b64(bytes(Tz)), "Bt": core.b64(Tm), "srcs": [core.b64(S)], "skinds": ["stored-digest-as-uncompressed"],
+                            "mode": "match", "reset": True, "zh": ctx["zh"]})
             # multi-step: a source validated while intact and damaged afterwards; a damaged source vouched for by index matching
             if i % 2 == 0:
                 good = zckref.make_file(pieces, comp_type=comp, dict_bytes=db, chunk_hash_type=cht, uncomp=uncomp)
